@@ -273,6 +273,15 @@ func platCommands() []database.Command {
 			}
 		}
 	}
+	// the same command and description twice with different platforms / pipeline flags (main database + notebook produce this)
+	for _, pr := range [][2][]string{{{"windows"}, {"linux"}}, {{"solaris"}, nil}, {{"linux"}, {"windows"}}} {
+		k++
+		for _, decl := range pr {
+			out = append(out, database.Command{Command: fmt.Sprintf("zqdup%d frobnicate --widget", k), Description: "Frobnicate the widget twice", Keywords: []string{"frobnicate", "widget"}, Platform: decl})
+		}
+	}
+	out = append(out, database.Command{Command: "zqdupp frobnicate --widget", Description: "Frobnicate the widget piped", Keywords: []string{"frobnicate", "widget"}},
+		database.Command{Command: "zqdupp frobnicate --widget", Description: "Frobnicate the widget piped", Keywords: []string{"frobnicate", "widget"}, Pipeline: true})
 	// commands that are no pipelines although they contain a lone '&' or '>' (background job, redirection)
 	for i, cmd := range []string{"zqbg frobnicate --widget 1 &", "zqout frobnicate --widget 2 > out.txt", "zqerr frobnicate --widget 3 2>&1", "zqin frobnicate --widget 4 < in.txt"} {
 		out = append(out, database.Command{Command: cmd, Description: fmt.Sprintf("Frobnicate the widget quietly %d", i), Keywords: []string{"frobnicate", "widget"}})
@@ -434,6 +443,39 @@ func getCorpus(name string) *corpusT {
 			}
 			return db
 		})
+	case "swapped": // a typo search, then the commands replaced by as many other commands (per-database text caches must follow)
+		c = builtCorpus2("swapped", func() *database.Database {
+			cmds := mixCommands()
+			rev := make([]database.Command, len(cmds))
+			for i := range cmds {
+				rev[len(cmds)-1-i] = cmds[i]
+				rev[len(cmds)-1-i].Description = "old " + cmds[i].Description + " zzzz"
+			}
+			db := &database.Database{Commands: rev}
+			db.SearchUniversal("frobnicte", database.SearchOptions{Limit: 5, UseFuzzy: true, AllPlatforms: true})
+			db.SearchUniversal("zzzz", database.SearchOptions{Limit: 5, UseFuzzy: true, AllPlatforms: true})
+			database.VerifNewCachedDatabase(db, 10, 0).UpdateDatabase(mixCommands())
+			return db
+		}, func() *database.Database {
+			db := &database.Database{Commands: mixCommands()}
+			database.VerifNewCachedDatabase(db, 10, 0).UpdateDatabase(mixCommands())
+			return db
+		})
+	case "pair": // two symmetric commands that tie for "deploy app" unless one of the words is boosted
+		c = loadCorpus("pair", []database.Command{{Command: "appctl status", Description: "Status of the app"}, {Command: "shipit status", Description: "Status of the deploy"},
+			{Command: "zqother thing", Description: "Unrelated"}})
+	case "semuni": // an embedding index whose vocabulary has a word with a capital outside ASCII
+		cmds := append(mixCommands(), database.Command{Command: "zqux \u00fcber frobnicate", Description: "\u00dcber the widget", Keywords: []string{"\u00fcber"}},
+			database.Command{Command: "zquy unter frobnicate", Description: "Unter the widget", Keywords: []string{"unter"}})
+		c = loadCorpus("semuni", cmds)
+		idx := synthIndex(len(c.db.Commands), false)
+		idx.WordVectors["\u00fcber"] = []float32{3, -2, 1, 0.5, -1, 2, 0, 1}
+		idx.WordVectors["unter"] = []float32{-3, 2, -1, 0.5, 1, -2, 0, 1}
+		idx.CmdEmbeddings[len(idx.CmdEmbeddings)-2] = []float32{3, -2, 1, 0.5, -1, 2, 0, 1}
+		idx.CmdEmbeddings[len(idx.CmdEmbeddings)-1] = []float32{-3, 2, -1, 0.5, 1, -2, 0, 1}
+		c.db.VerifAttachEmbeddings(idx)
+	case "mixblank": // one record nothing can be searched by
+		c = loadCorpus("mixblank", append(mixCommands(), database.Command{Command: "...", Description: ""}))
 	case "fallback": // the built-in database the loader falls back to when no file loads
 		c = builtCorpus("fallback", func() *database.Database {
 			none := filepath.Join(tmpDir(), "no-such-dir", "commands.yml")
@@ -556,6 +598,10 @@ func (s scenario) options() database.SearchOptions {
 				"move": 1.2, "service": 1.3, "file": 1.1, "directory": 1.2, "process": 1.3}
 		case 5: // what a Node.js project directory yields
 			o.ContextBoosts = map[string]float64{"npm": 2.0, "yarn": 2.0, "node": 1.8, "javascript": 1.5, "package": 1.3, "install": 1.3, "build": 1.3, "test": 1.3}
+		case 8: // keys that differ only in letter case or surrounding blanks, with different values (a Makefile target "Test" beside the project word "test")
+			o.ContextBoosts = map[string]float64{"frobnicate": 2.0, "Frobnicate": 1.2, " widget ": 3, "widget": 1.1, "WIDGET": 2.5, "number": 1.4, "Number": 2.2}
+		case 9: // factors below 1, zero and negative values
+			o.ContextBoosts = map[string]float64{"frobnicate": 0.5, "widget": 0.1, "number": 0, "item": -2}
 		case 7: // words no command contains (a project type whose vocabulary the database does not know)
 			o.ContextBoosts = map[string]float64{"absentword": 1.5, "zzabsent": 2.0, "qqnowhere": 1.8}
 		default: // docker + go + kubernetes
@@ -677,6 +723,35 @@ func runEntry(c *corpusT, s scenario, q string) (out runOut, first *runOut) {
 		f := runOut{hits: toHits(mdb.SearchWithOptionsAndMonitoring(q, o))}
 		first = &f
 		out.hits = toHits(mdb.SearchWithOptionsAndMonitoring(q, o))
+		out.path = "cached"
+	case "cachedseq": // a cached search, the cache switched off, the database replaced, the cache switched on, the search again
+		db2, err := database.LoadDatabase(c.file)
+		if err != nil {
+			fatal("%v", err)
+		}
+		cdb := database.VerifNewCachedDatabase(db2, 50, 0)
+		cdb.SearchWithOptionsAndCache(q, o)
+		cdb.EnableCache(false)
+		half := append([]database.Command(nil), db2.Commands[len(db2.Commands)/2:]...)
+		cdb.UpdateDatabase(half)
+		cdb.EnableCache(true)
+		res := cdb.SearchWithOptionsAndCache(q, o)
+		// results as entries of the *current* database (mapped back to c by content); anything else is no entry of it
+		member := map[*database.Command]bool{}
+		for i := range cdb.Commands {
+			member[&cdb.Commands[i]] = true
+		}
+		byContent := map[string]*database.Command{}
+		for i := range c.db.Commands {
+			byContent[contentKey(&c.db.Commands[i])] = &c.db.Commands[i]
+		}
+		for _, r := range res {
+			if member[r.Command] {
+				out.hits = append(out.hits, hit{byContent[contentKey(r.Command)], r.Score})
+			} else {
+				out.hits = append(out.hits, hit{nil, r.Score})
+			}
+		}
 		out.path = "cached"
 	case "cli":
 		// the real binary: wtf --database <file> --limit N --format json -v [platform flags] <query>
@@ -1021,7 +1096,27 @@ func runCLI(c *corpusT, s scenario, q string) (out runOut) {
 		args = append(args, "--no-cross-platform")
 	}
 	args = append(args, "--", q)
-	so, code, err := runWtf(args)
+	var so string
+	var code int
+	var err error
+	if c.name == "pair" { // run inside a project directory whose Makefile has a target named like a query word
+		home, _ := cliEnv()
+		proj := filepath.Join(home, "proj")
+		os.MkdirAll(proj, 0o755)
+		os.WriteFile(filepath.Join(proj, "Makefile"), []byte("deploy:\n\techo deploy\n\nlint:\n\techo lint\n"), 0o644)
+		cmd := exec.Command(os.Getenv("VERIF_WTF"), args...)
+		cmd.Dir = proj
+		cmd.Env = []string{"HOME=" + home, "XDG_CONFIG_HOME=" + filepath.Join(home, ".config"), "PATH=/usr/bin:/bin", "NO_COLOR=1"}
+		b, rerr := cmd.CombinedOutput()
+		so = string(b)
+		if ee, ok := rerr.(*exec.ExitError); ok {
+			code = ee.ExitCode()
+		} else {
+			err = rerr
+		}
+	} else {
+		so, code, err = runWtf(args)
+	}
 	if err != nil {
 		fatal("cannot run wtf: %v", err)
 	}
